@@ -195,7 +195,7 @@ func ruleBuryWhenEmpty(c *Ctx) {
 	rm := P.Method("server/cluster", "RaftCluster", "RemoveTombStoneRecords")
 	// (the deletion itself: the cluster's helper, or the storage / cache deletions written in place)
 	dels := []Callee{F(P.Method("server/core", "Storage", "DeleteStore")), F(P.Method("server/core", "BasicCluster", "DeleteStore"))}
-	if h := P.methodOpt("server/cluster", "RaftCluster", "deleteStoreLocked"); h != nil {
+	if h := P.methodOptR("server/cluster", "RaftCluster", "deleteStoreLocked"); h != nil {
 		dels = append(dels, F(h))
 	}
 	isTomb := F(P.Method("server/core", "StoreInfo", "IsTombstone"))
@@ -414,9 +414,9 @@ func init() {
 		c.Group("C14/state-machine", "State is assigned only by three constant options; each is applied only under its typestate guard on the store read under the cluster write lock (held until the new state is published)", func() { ruleStoreStateMachine(c) })
 		c.Group("C14/bury-when-empty", "buryStore is called only under GetStoreRegionCount(id) == 0; only tombstones are deleted", func() { ruleBuryWhenEmpty(c) })
 		c.Group("C14/role-index-table", "(shared with C07) the count a store is buried on is complete: every voter, learner and pending peer of a region is filed in its per-store index, whatever its joint-consensus role", func() { ruleRoleIndexTable(c) })
-		c.Group("C14/persist-before-serve", "the served store set changes only after the storage write succeeded, with the same record; heartbeats publish volatile attributes only", func() { ruleStorePersistBeforeServe(c); ruleSavedStoreIsServed(c) })
+		c.Group("C14/persist-before-serve", "the served store set changes only after the storage write succeeded, with the same record; heartbeats publish volatile attributes only", func() { ruleStorePersistBeforeServe(c); ruleSavedStoreIsServed(c); ruleWeightsStoredAsServed(c) })
 		c.Group("C14/admission", "id 0 and duplicate addresses (among live stores) are rejected; tombstones are refused at the RPC", func() { ruleStoreAdmission(c); ruleAddressScanAlways(c) })
-		c.Group("C14/store-rmw-atomic", "reading a cached store and publishing its modified clone happen under one hold of the cluster lock", func() { ruleStoreRMW(c) })
+		c.Group("C14/store-rmw-atomic", "reading a cached store and publishing its modified clone happen under one hold of the cluster lock", func() { ruleStoreRMW(c); ruleRegistrationChecksUnderLock(c) })
 	})
 }
 
@@ -450,5 +450,61 @@ func ruleSavedStoreIsServed(c *Ctx) {
 	}
 	if n < 2 {
 		c.Undec(rule, "cluster functions writing store records", "at least 2 (putStoreLocked, the tombstone removal)", "", fmt.Sprint(n))
+	}
+}
+
+// ruleWeightsStoredAsServed: SetStoreWeight writes to storage the very values
+// it installs in the served store: leader weight with leader weight, region
+// weight with region weight.
+func ruleWeightsStoredAsServed(c *Ctx) {
+	P := c.P
+	rule := c.Prop + "/persist-before-serve"
+	fn := P.Method("server/cluster", "RaftCluster", "SetStoreWeight")
+	save := F(P.Method("server/core", "Storage", "SaveStoreWeight"))
+	optL := F(P.Func("server/core", "SetLeaderWeight"))
+	optR := F(P.Func("server/core", "SetRegionWeight"))
+	var savedL, savedR, servedL, servedR ssa.Value
+	for _, ci := range callsIn(fn, false, save) {
+		if a := callArgs(ci.Common()); len(a) == 3 {
+			savedL, savedR = a[1], a[2]
+		}
+	}
+	for _, ci := range callsIn(fn, false, optL) {
+		if a := callArgs(ci.Common()); len(a) == 1 {
+			servedL = a[0]
+		}
+	}
+	for _, ci := range callsIn(fn, false, optR) {
+		if a := callArgs(ci.Common()); len(a) == 1 {
+			servedR = a[0]
+		}
+	}
+	if savedL == nil || servedL == nil || servedR == nil {
+		c.Undec(rule, "weights in "+fnName(fn), "SaveStoreWeight and the SetLeaderWeight / SetRegionWeight options found", P.pos(fn.Pos()), "")
+		return
+	}
+	c.Check(sameVal(savedL, servedL) && sameVal(savedR, servedR), rule, "weights written by "+fnName(fn), "the leader (region) weight written to storage is the leader (region) weight installed in the served store", P.pos(fn.Pos()), "stored and served weights are different values")
+}
+
+// ruleRegistrationChecksUnderLock: everything putStoreImpl decides on — the
+// address scan over the registered stores, the lookup of the store itself — is
+// read with the cluster lock held, the same hold under which the record is
+// written.
+func ruleRegistrationChecksUnderLock(c *Ctx) {
+	P := c.P
+	rule := c.Prop + "/store-rmw-atomic"
+	impl := P.Method("server/cluster", "RaftCluster", "putStoreImpl")
+	lock := P.Field("server/cluster", "RaftCluster", "RWMutex")
+	n := 0
+	for _, name := range []string{"GetStores", "GetStore"} {
+		g := F(P.Method("server/cluster", "RaftCluster", name))
+		for _, ci := range callsIn(impl, false, g) {
+			n++
+			held, tr := heldAt(P, ci.(ssa.Instruction), lock, true)
+			c.Check(held, rule, fmt.Sprintf("read of the registered stores (%s) in %s #%d", name, fnName(impl), n), "made with the cluster's write lock held", P.instrPos(ci.(ssa.Instruction)), tr)
+		}
+	}
+	if n < 2 {
+		c.Undec(rule, "reads of the registered stores in "+fnName(impl), "at least 2 (address scan, lookup)", "", fmt.Sprint(n))
 	}
 }
